@@ -122,6 +122,9 @@ def gen_names(facts):
         'def defaultExpression : String := ' + lean_str(zt.PageTemplate.default_expression),
         'def booleanHtml : List String := ' + lean_strs(zt.BOOLEAN_HTML_ATTRIBUTES),
         'def dropNs : List String := ' + lean_strs(MacroProgram.DROP_NS),
+        '/-- `dir(type)` of the builtin types whose attribute access the expression model decides -/',
+        'def builtinAttrs : List (String × List String) := [' + ', '.join(
+            '(%s, %s)' % (lean_str(n), lean_strs(sorted(dir(getattr(builtins, n))))) for n in ('str', 'list', 'tuple', 'int', 'bool', 'bytes', 'dict')) + ']',
     ]
     return lines
 
